@@ -403,6 +403,8 @@ def run(ctx):
 
 
 MUTANTS = [
+    Mutant('float-exponent-rewritten', FILE, "        return sym.FloatLiteral(value=s)\n", "        return sym.FloatLiteral(value=s.replace('d', 'e').replace('D', 'e'))\n",
+           expect=('R4', 'd-exponent')),
     Mutant('times-guard-nonstrict', FILE, "pstate.is_next(_times) and _PREC_TIMES > min_precedence", "pstate.is_next(_times) and _PREC_TIMES >= min_precedence",
            expect=('R1', '/ then *'), quick=True),
     Mutant('slice-guard-weakened', FILE, "        if len(children) == 1 and children[0] is None:", "        if children[0] is None:", expect=('R6', 'map_slice')),
